@@ -402,7 +402,8 @@ class Report:
 
 
 def prove(report: Report, targets, theorem_files=None):
-    """Static gate + build of the proof targets; counts obligations.  Returns True if ok."""
+    """Static gate + full .vo build of the proof targets + Print Assumptions of the property
+    files.  Counts obligations (statements in Props/ and Bridge/ targets).  Returns True if ok."""
     bad = static_gate()
     if bad:
         report.violation("static gate: " + "; ".join(bad[:5]),
@@ -422,7 +423,20 @@ def prove(report: Report, targets, theorem_files=None):
         report.coverage["broken_obligation"] = {"where": where, "log_tail": log[-2500:]}
         return False
     report.discharged += n_thm
-    # collect Print Assumptions output from the build log if Props were rebuilt; otherwise re-query
+    axioms = {}
+    for t in targets:
+        if not t.startswith("Props/"):
+            continue
+        blocks, out = assumptions_of(t[:-1])
+        if blocks is None:
+            report.coverage["broken_obligation"] = {"where": t, "log_tail": out}
+            report.discharged -= n_thm
+            return False
+        closed = sum(1 for b in blocks if b.startswith("Closed"))
+        ax = sorted({ln.strip().split(" :")[0] for b in blocks if b.startswith("Axioms")
+                     for ln in b.splitlines()[1:] if ln and not ln.startswith(" ") and " :" in ln})
+        axioms[t] = {"theorems_printed": len(blocks), "closed_under_global_context": closed, "axioms": ax}
+    report.coverage["print_assumptions"] = axioms
     return True
 
 
